@@ -141,7 +141,16 @@ func history(r drv.Rand, idx int) *h.World {
 		case k < 16:
 			e.Cred = h.GoodCred(drv.Pick(r, []string{"web2", "native", "spa"}))
 		case k < 17:
-			e.Cred = h.BasicCred(drv.Pick(r, []string{"native", "spa"}))
+			if r.Bool() { // two identities: a valid credential of X, client_id=Y in the form
+				e.Cred = h.BasicCred(drv.Pick(r, []string{"web", "web2", "pkjwt"}))
+				if e.Cred.Kind == "basic" {
+					e.Cred.Kind = "both"
+				}
+				e.Cred.FormID = drv.Pick(r, []string{"web", "web2", "native", "webx"})
+				w.Tags["twoid=1"] = true
+			} else {
+				e.Cred = h.BasicCred(drv.Pick(r, []string{"native", "spa", "pkjwt"}))
+			}
 		case k < 18:
 			e.Cred = h.Cred{Kind: "basic", ID: "web", Sec: "wrong"}
 		case k < 19:
